@@ -1159,4 +1159,29 @@ theorem numbering_main (t : Bool) (r : Rec) (H : r.Scope) (bios : List Bio) (r' 
             rw [hcore]
 
 
+/-! ### the taxon -/
+
+theorem readStepT_true (acc : Rec × List Bio) (b : Bio) : readStepT true acc b = readStep acc b := by
+  unfold readStepT readStep; simp
+
+theorem readStepT_noclean (bact : Bool) (acc : Rec × List Bio) (b : Bio) (h : prefilter b = b) :
+    readStepT bact acc b = readStep acc b := by
+  unfold readStepT readStep
+  cases bact <;> simp [h]
+
+theorem foldlM_readStepT (bact : Bool) : ∀ (bios : List Bio) (acc : Rec × List Bio), (∀ b ∈ bios, prefilter b = b) →
+    bios.foldlM (readStepT bact) acc = bios.foldlM readStep acc
+  | [], _, _ => rfl
+  | b :: rest, acc, h => by
+    simp only [List.foldlM_cons, readStepT_noclean bact acc b (h b (by simp))]
+    cases readStep acc b with
+    | error e => rfl
+    | ok acc' => exact foldlM_readStepT bact rest acc' (fun x hx => h x (by simp [hx]))
+
+/-- reading does not depend on the taxon when no `misc_feature` needs the NCBI clean-up -/
+theorem readRecordT_eq (bact : Bool) (len : Int) (circ : Bool) (bios : List Bio) (h : ∀ b ∈ bios, prefilter b = b) :
+    readRecordT bact len circ bios = readRecord len circ bios := by
+  unfold readRecordT readRecord
+  rw [foldlM_readStepT bact bios _ h]
+
 end ASV.Serial
